@@ -61,7 +61,53 @@ func HopN(e error, k int) error {
 
 // Proc is a process: Forget lists the type keys it does not know
 // (nil = knowing).
-type Proc struct{ Forget []string }
+//
+// NoProto: the process does not link the protobuf message types of the
+// payloads of the types it does not know either (as a binary built
+// without the package that defines the error type would): the type URLs
+// of those payloads are made unresolvable on the way in and restored on
+// the way out, so that only what the process itself does with the
+// message can differ.
+type Proc struct {
+	Forget  []string
+	NoProto bool
+}
+
+func (p Proc) mangle(b []byte) []byte {
+	if !p.NoProto || len(p.Forget) == 0 {
+		return b
+	}
+	forget := map[string]bool{}
+	for _, k := range p.Forget {
+		forget[k] = true
+	}
+	enc, err := Unmarshal(b)
+	if err != nil {
+		return b
+	}
+	VisitDetails(&enc, func(d *errorspb.EncodedErrorDetails, _ bool) {
+		if forget[d.ErrorTypeMark.FamilyName] && d.FullDetails != nil && !strings.HasSuffix(d.FullDetails.TypeUrl, "/cockroach.errorspb.EncodedError") {
+			d.FullDetails.TypeUrl += USuffix
+		}
+	})
+	return Marshal(enc)
+}
+
+func (p Proc) unmangle(b []byte) []byte {
+	if !p.NoProto || len(p.Forget) == 0 {
+		return b
+	}
+	enc, err := Unmarshal(b)
+	if err != nil {
+		return b
+	}
+	VisitDetails(&enc, func(d *errorspb.EncodedErrorDetails, _ bool) {
+		if d.FullDetails != nil {
+			d.FullDetails.TypeUrl = strings.TrimSuffix(d.FullDetails.TypeUrl, USuffix)
+		}
+	})
+	return Marshal(enc)
+}
 
 func (p Proc) keys() []errbase.TypeKey {
 	ks := make([]errbase.TypeKey, len(p.Forget))
@@ -80,11 +126,11 @@ func (p Proc) Receive(b []byte, observe func(d error)) (out []byte) {
 		restore = errbase.VerifForgetTypes(p.keys())
 	}
 	defer restore()
-	d := DecBytes(b)
+	d := DecBytes(p.mangle(b))
 	if observe != nil {
 		observe(d)
 	}
-	return EncBytes(d)
+	return p.unmangle(EncBytes(d))
 }
 
 // VisitDetails calls f for every EncodedErrorDetails of the message,
@@ -221,7 +267,7 @@ func (p Proc) Decode(b []byte) error {
 		restore = errbase.VerifForgetTypes(p.keys())
 	}
 	defer restore()
-	return DecBytes(b)
+	return DecBytes(p.mangle(b))
 }
 
 // Transfer sends e through the history; the last process is the
